@@ -103,7 +103,15 @@ VisitTo(mb) ==
              /\ flag' = TRUE
              /\ hist' = IF Gen /\ Cardinality(cands) > 1 THEN Append(hist, <<"tie", <<u, mb>>>>) ELSE hist
         ELSE /\ mb = 1
-             /\ UNCHANGED <<m, knmo, knmi, kmo, kmi, flag, hist>>
+             /\ UNCHANGED <<m, knmo, knmi, kmo, kmi, flag>>
+             \* guard boundary: no move, yet joining another module would change Q by exactly 0.
+             \* Marked in generated behaviours: the harness perturbs one connection between the two
+             \* node sets by +-1e-9 so that the real code sits just above / below its move threshold.
+             /\ hist' = IF Gen /\ best = 0 /\ cands # {ma}
+                        THEN LET mm == CHOOSE x \in cands \ {ma} : \A y \in cands \ {ma} : x <= y
+                             IN Append(hist, <<"zero", <<SetToSortSeq({i \in 1..N : cur[i] = u}, <),
+                                                         SetToSortSeq({i \in 1..N : m[cur[i]] = mm}, <), <<h>> >> >>)
+                        ELSE hist
   /\ pos' = pos + 1
   /\ pc' = IF pos = nl THEN "endsweep" ELSE "visit"
   /\ UNCHANGED <<W0, start, Wl, nl, cur, order, sweeps, h, qs, res>>
